@@ -811,6 +811,7 @@ class LoopSock:
         self.timeout = None
         self.sent_bytes = 0
         self.recv_bytes = 0
+        self.sent_log = None      # set to [] to keep everything that is written
         self.line_mode = True     # until the version banner has been read, never return bytes beyond a newline
                                   # (Packetizer.readline would keep them as "remainder": harmless, but then the
                                   # bytes a read_message consumed could not be measured at the socket)
@@ -836,6 +837,8 @@ class LoopSock:
             p.buf += data
             p.cv.notify_all()
         self.sent_bytes += len(data)
+        if self.sent_log is not None:
+            self.sent_log.append(bytes(data))       # one entry per send() = one packet per Packetizer.write_all
         return len(data)
 
     def recv(self, n):
@@ -932,8 +935,15 @@ def kd_classes(log):
     from paramiko.packet import Packetizer
 
     class KDPacketizer(Packetizer):
+        def __init__(self, sock):
+            super().__init__(sock)
+            self._kd_sock = sock
+
         def set_outbound_cipher(self, *a, **kw):
-            log.append(("set", id(self), "out", kw.get("mac_key"), kw.get("iv_out"), kw.get("aead", False)))
+            sock = getattr(self, "_kd_sock", None)
+            # where the bytes sealed with these keys will start, and the sequence number of the first such packet
+            log.append(("set", id(self), "out", kw.get("mac_key"), kw.get("iv_out"), kw.get("aead", False),
+                        len(sock.sent_log) if sock is not None and sock.sent_log is not None else None, seq_out(self)))
             return super().set_outbound_cipher(*a, **kw)
 
         def set_inbound_cipher(self, *a, **kw):
